@@ -1,6 +1,7 @@
 """Obligations, finding keys, known-findings matching, evidence and replay files."""
 from __future__ import annotations
 
+import ast
 import json
 import os
 import time
@@ -117,6 +118,24 @@ def run_property(prop: str, module, prog: Program, tier: str) -> "Result":
                     o.status = UNDECIDED
                     o.detail = (f"local anchor(s) {sorted(missed[o.function])} not found in {o.function.split('.')[-1]} (renamed or removed); "
                                 f"the rule cannot decide this site. Was: {o.detail}")[:600]
+    # local-name anchors (anchors.json, generated on the pinned tree): a verdict about a function in
+    # which a local the rule texts mention by name no longer occurs is UNDECIDED, not VIOLATED
+    apath = os.path.join(VERIF, "anchors.json")
+    if os.path.exists(apath):
+        with open(apath) as fh:
+            anchors = json.load(fh).get(prop, {})
+        for qn, names in anchors.items():
+            f = prog.functions.get(qn)
+            if f is None:
+                continue
+            present = {n.id for n in ast.walk(f.node) if isinstance(n, ast.Name)}
+            gone = [x for x in names if x not in present]
+            if gone:
+                for o in ctx.obs:
+                    if o.status == VIOLATED and o.function == qn:
+                        o.status = UNDECIDED
+                        o.detail = (f"local anchor(s) {gone} no longer occur in {qn.split('.')[-1]} (renamed or removed); the rules of {prop} "
+                                    f"identify sites in this function through them and cannot decide it. Was: {o.detail}")[:600]
     # floors
     for rule_id, _fn, floor, _d in module.RULES:
         n = sum(1 for o in ctx.obs if o.rule == rule_id and o.status != VANISHED)
